@@ -81,9 +81,18 @@ doc = "\n".join(parts)
 # numbers the document quotes are computed, not typed
 n_fix = sum(1 for f in kf if str(f.get("status", "")).startswith("fixed"))
 open_keys = [f for f in kf if f.get("status") == "open"]
-rounds = {"a": [s for n, s in status.items() if "agentb" not in n and "agentc" not in n],
-          "b": [s for n, s in status.items() if "agentb" in n],
-          "c": [s for n, s in status.items() if "agentc" in n]}
+import re as _re
+
+
+def _round_of(n):
+    mm = _re.search(r"-agent([b-z])-", n)
+    return mm.group(1) if mm else "a"
+
+
+rounds = {}
+for n, s_ in sorted(status.items()):
+    rounds.setdefault(_round_of(n), []).append(s_)
+rounds = dict(sorted(rounds.items()))
 rounds = {k: v for k, v in rounds.items() if v}
 weak = ("C03", "C09", "C10", "C16", "C18")
 rt = ["| round | changes | caught at first run | caught now |", "|---|---:|---:|---:|"]
@@ -91,10 +100,6 @@ for r, ss in rounds.items():
     rt.append(f"| {r} | {len(ss)} | {sum(x['first_run'] == 'caught' for x in ss)} | "
               f"{sum(bool(x['now']) for x in ss)} |")
 weak_first = {}
-def _round_of(n):
-    return "b" if "agentb" in n else ("c" if "agentc" in n else "a")
-
-
 for r in rounds:
     ss = [s for n, s in status.items() if n.split("-")[0] in weak and _round_of(n) == r]
     weak_first[r] = sum(x['first_run'] == 'caught' for x in ss)
